@@ -71,6 +71,15 @@ def witnesses(tier, seed):
         for which in ('forward', 'backward'):
             for n in ([2, 3, 4, 5, 8, 9, 12] if quick else [2, 3, 4, 5, 6, 7, 8, 9, 12, 16, 17]):
                 W.append(mk_subs(t, n, which))
+    # pivoted strategies end to end (symbolic pivot search, every case decided), vector and multi-column right-hand sides
+    for t in ('f64', 'f32'):
+        for strat in ('SimpleInvPiv', 'SimpleLUPiv', 'BlockLUPiv'):
+            for n in ([1, 2, 3] if quick else [1, 2, 3, 4]):
+                for nc in (0, 2):
+                    if t == 'f32' and (n > 2 or nc):
+                        continue
+                    w = mk(t, n, strat, nc); w.family = 'solve.' + strat + '.pivoted'; w.extra['max_ms'] = 400000
+                    W.append(w)
     W += pivot_helper_witnesses(['colwise'], tier)
     return group_sort(W)
 
